@@ -94,9 +94,10 @@ def gen_case(rng, i, neutral_only=False):
     width = nkeys + nvals
     opt_col = None
     if rng.random() < 0.3:
-        # one more column that also holds None (NULL): it is only ever counted, collected or picked (COUNT / ARRAY_AGG / ANY_VALUE arguments)
+        # one more column that also holds None (NULL): it is counted, collected or picked (COUNT / ARRAY_AGG / ANY_VALUE arguments) or selected as a plain column
+        pool = rng.choice([['x', 'y', None, None], ['x', 'y', None, None], [None, 'x'], [None]])
         for r in A:
-            r.append(rng.choice(['x', 'y', None, None]))
+            r.append(rng.choice(pool))
         opt_col = width
         width += 1
     a_names = None
@@ -156,6 +157,9 @@ def gen_case(rng, i, neutral_only=False):
     # occasionally a non-constant plain column: must be rejected
     if rng.random() < 0.06 and A:
         items.append({'kind': 'expr', 'expr': fld(nkeys)})
+    # a plain column over the cells that may be None: None and a value (in either order) are not constant, a group of None only is
+    if opt_col is not None and rng.random() < 0.3:
+        items.insert(rng.randrange(len(items) + 1), {'kind': 'expr', 'expr': fld(opt_col)})
     q['items'] = items
     if rng.random() < 0.35:
         q['where'] = rng.choice([['cmp', '!=', fld(0), ['str', 'a']], ['cmp', '>', ['NR'], ['int', 1]], ['cmp', '==', ['arith', '%', ['NR'], ['int', 2]], ['int', 0]], ['cmp', '==', fld(0), ['str', 'zz']]])
@@ -338,7 +342,7 @@ def summarize(tier, seed, m):
         'rule': 'aggregate queries with 1-5 aggregates out of COUNT(*|1|x), MIN, MAX, SUM, AVG, VARIANCE, MEDIAN, ARRAY_AGG, ANY_VALUE in upper / lower / capitalised spellings (expression arguments in the Python leg), group keys and constants as plain columns, no GROUP BY / one key / two keys / NR %% k / len(key), optional WHERE and TOP/LIMIT, over tables of 0-40 rows with int, float, mixed int->float, zero-heavy and negative numeric strings, native int / float cells, and integers beyond 2**53 (Python leg only); one case in 16 exercises builtin min/max/sum dispatch in a non-aggregate query; a non-constant plain column is injected in 6%% of the cases and must be rejected with the record number. a typed front-ends leg: one query with all nine aggregates grouped by a string, integer or mixed integer / float key (optionally filtered) over 1-40 records delivered by a dataframe (int64 / float64 / object), a sqlite table (INTEGER / REAL / TEXT) and a CSV reader (numeric strings), integers up to 2**60 (sums and extrema must stay exact integers), floats in quarters (exact rational reference), groups in ascending key order; distinct_nontrivial = distinct (query, table) with at least one result row.',
         'required': ['typed_aggregate_runs:pandas', 'typed_aggregate_runs:sqlite', 'typed_aggregate_runs:csv', 'typed_aggregate_groups', 'py_aggregate_cases', 'py_builtin_dispatch_cases', 'groups_checked', 'predicted_errors', 'js_cases'],
         'extra': {'aggregate_spellings_seen': aggs},
-        'assumptions': ['numeric tolerance 1e-9 relative for the results every implementation computes in floating point (AVG, VARIANCE, the mean of the two middle values of MEDIAN, SUM / MIN / MAX over floats); the scale is max(1, |result|, largest |operand|) - for VARIANCE the largest squared operand - because that is what bounds a floating-point sum; integer MIN / MAX / SUM / MEDIAN (odd count) / COUNT are compared exactly, also beyond 2**53 (Python leg)', 'plain columns are never None (the engine uses None as its unset sentinel; the quantifier is over numeric columns)'],
+        'assumptions': ['numeric tolerance 1e-9 relative for the results every implementation computes in floating point (AVG, VARIANCE, the mean of the two middle values of MEDIAN, SUM / MIN / MAX over floats); the scale is max(1, |result|, largest |operand|) - for VARIANCE the largest squared operand - because that is what bounds a floating-point sum; integer MIN / MAX / SUM / MEDIAN (odd count) / COUNT are compared exactly, also beyond 2**53 (Python leg)', 'plain (non-aggregate) columns may hold None (a missing cell): None and a value within one group count as non-constant, a group of None only as constant'],
     }
 
 
